@@ -78,3 +78,17 @@ stage_inst_386() {
   fi
   rm -rf "$s/x386"
 }
+
+# stage_plain_386 <scratch>: the plain flavour for GOARCH=386, reduced to cmd/pharness386
+stage_plain_386() {
+  local s=$1
+  copy_repo "$s/plain386" || return 2
+  rsync -a "$VERIF/harness/plain/" "$s/plain386/" || return 2
+  rsync -a "$VERIF/harness/ref/" "$s/plain386/zzref/" 2>/dev/null
+  (cd "$s/plain386" && go mod edit -require=verif/vs@v0.0.0 -replace=verif/vs="$VERIF/engine/vs") || return 2
+  (cd "$s/plain386" && GOARCH=386 CGO_ENABLED=0 go build -tags verif -o "$s/pharness386" ./cmd/pharness386) > "$s/build-plain386.log" 2>&1
+  if [ $? -ne 0 ]; then
+    echo "INFRA: plain 386 build failed:" >&2; head -40 "$s/build-plain386.log" >&2; return 2
+  fi
+  rm -rf "$s/plain386"
+}
